@@ -429,6 +429,29 @@ def run_property(ctx, prop, features, ncases, want, extra_cases=(), known_matche
         # search for a failing input: monitors of every deps-level property on the shrunk case and on the batch
         allmon = monitors(small, rr[0], {"C01", "C02", "C03", "C05", "C11", "C14", "C17"})
         hit = [x for x in allmon if x[0] == prop]
+        if not hit:
+            # follow-up search: continue the disagreeing histories (shrunk and original) with one `redo-ifchange`
+            # per target and one for all of them, and a batch of fresh histories; first monitor hit of this property wins
+            targets = sorted(c.rules)
+            follow = [("ifc", [t], False) for t in targets] + [("ifc", targets, False)]
+            cands = [depsgen.Case(small.names, small.rules, list(small.ops) + follow), depsgen.Case(c.names, c.rules, list(c.ops[:j + 1]) + follow),
+                     depsgen.Case(c.names, c.rules, list(c.ops) + follow)]
+            cands += [depsgen.gen_case(rng, features=features) for _ in range(60)]
+            with ThreadPoolExecutor(max_workers=14) as ex:
+                rrs = list(ex.map(depsgen.run_real, cands))
+            for cc, rr2 in zip(cands, rrs):
+                rr2 = [canon_ran(l) for l in rr2]
+                mm2 = [x for x in monitors(cc, rr2, {prop}) if x[0] == prop]
+                if mm2 and not (known_matcher and known_matcher(cc, mm2[0])):
+                    def pred2(c3):
+                        return any(x[0] == prop for x in monitors(c3, [canon_ran(l) for l in depsgen.run_real(c3)], {prop}))
+                    sm2 = shrink(cc, pred2, budget=25)
+                    r3 = [canon_ran(l) for l in depsgen.run_real(sm2)]
+                    m3 = [x for x in monitors(sm2, r3, {prop}) if x[0] == prop] or mm2
+                    p = write_replay(prop, "corr-%d" % ci, dict(kind="model-vs-impl+impl-monitor", layer="Deps", message=m3[0][1], case=sm2.to_json(), names=sm2.names, real=r3,
+                                                                 disagreement=dict(case=small.to_json(), op=small.ops[jj] if jj < len(small.ops) else None, model=mm[0][jj], impl=rr[0][jj]), defects=defects))
+                    hit = m3
+                    break
         viol.append(Violation(prop, p, "model and implementation disagree on a history (op %d: %s)%s" % (jj, depsgen.enc_op(small.ops[jj]) if jj < len(small.ops) else "?", "; " + hit[0][1] if hit else ""), no_input=not hit))
     return dict(evaluations=stats["ops"], distinct_nontrivial=len(distinct),
                 rule="seeded random histories over generated projects (sources, targets with specific and default rules, checksummed/always/ifcreate/failing scripts; ops: edit/remove/chmod/hand-write files, edit/remove .do, redo, redo-ifchange [-k], redo-ood/targets/sources), every op compared on files + abstracted Files/Deps tables + executed scripts + status; non-trivial = at least one script executed; distinct by full history text",
